@@ -188,6 +188,49 @@ pub fn c20_describe(cfg: &J) {
     }
 }
 
+/// A metric described and then updated by one thread while main reads out: a readout that
+/// reports the update (which follows the describe call in program order) must report it with
+/// the described unit. Kinds: counter / histogram. The handle is registered up front.
+pub fn c20_describe_vs_readout(cfg: &J) {
+    let kind = cfg["kind"].as_str().unwrap_or("c").to_string();
+    let readouts = cfg["readouts"].as_u64().unwrap_or(1);
+    let rec: Rec = MetricRecorder::new();
+    let key = Key::from_name("m");
+    let (counter, histogram) = (rec.register_counter(&key, &md()), rec.register_histogram(&Key::from_name("h"), &md()));
+    let updater = {
+        let (rec, kind) = (rec.clone(), kind.clone());
+        thread::spawn(move || {
+            if kind == "c" {
+                rec.describe_counter(metrics_024::KeyName::from("m"), Some(metrics_024::Unit::Bytes), "d".into());
+                counter.increment(3);
+            } else {
+                rec.describe_histogram(metrics_024::KeyName::from("h"), Some(metrics_024::Unit::Bytes), "d".into());
+                histogram.record(5.0);
+            }
+        })
+    };
+    let name = if kind == "c" { "m" } else { "h" };
+    let mut seen = Vec::new();
+    let mut judge = |e: &metrique_metricsrs::MetricAccumulatorEntry<dyn metrics_024::Recorder>, when: &str, seen: &mut Vec<String>| {
+        let reported = if kind == "c" { e.counter_value(name).unwrap_or(0) > 0 } else { !e.histogram_value(name).is_empty() };
+        let mut units = UnitsOf(BTreeMap::new());
+        metrique_writer_core::Entry::write(e, &mut units);
+        let unit = units.0.get(name).cloned();
+        seen.push(format!("{when}:{reported}:{unit:?}"));
+        if reported && unit.as_deref() != Some("Bytes") {
+            mc::violation("update-reported-without-its-described-unit", format!("{when}: the readout reports the update of `{name}`, which was described as Bytes before it was updated, with unit {unit:?}"));
+        }
+    };
+    for i in 0..readouts {
+        let e = rec.readout();
+        judge(&e, &format!("readout {i} (concurrent)"), &mut seen);
+    }
+    updater.join().unwrap();
+    let e = rec.readout();
+    judge(&e, "final readout", &mut seen);
+    mc::outcome(format!("{seen:?}"));
+}
+
 struct UnitsOf(BTreeMap<String, String>);
 struct UV<'c>(String, &'c mut BTreeMap<String, String>);
 impl metrique_writer_core::ValueWriter for UV<'_> {
